@@ -503,8 +503,12 @@ def _run(ctx, runner):
             offs = sorted(set(list(range(tail, len(full) + 1)) + [rnd.randrange(len(full) + 1) for _ in range(30)] + list(range(0, 17))))
             kind = 'sampled offsets'
         else:
-            big = full.index(b'\n5\t6\t7\t') + 1
-            endbig = full.index(b'\n', big) + 1
+            big = endbig = 0                      # [big, endbig) = the longest line of what the writer produced
+            pos = 0
+            for l in full.split(b'\n'):
+                if len(l) + 1 > endbig - big: big, endbig = pos, pos + len(l) + 1
+                pos += len(l) + 1
+            endbig = min(endbig, len(full))
             offs = sorted(set([big - 1, big, big + 3, big + B - 1, big + B, big + B + 1, endbig - 5, endbig - 1, endbig, endbig + 3, len(full) - 1, len(full)]))
             offs = [o for o in offs if 0 <= o <= len(full)]
             if quick: offs = offs[::2] + [len(full)]
